@@ -183,7 +183,7 @@ func (g G) drawIDP(o worldOpts) IDPCfg {
 			c.CacheDuration = "PT1H"
 		}
 		if g.chance("idp.errurl", 20) {
-			c.ErrorURL = "https://idp.example/error"
+			c.ErrorURL = g.pick("idp.errurlv", "https://idp.example/error", "https://idp.example/error", "/error", "error.html")
 		}
 	}
 	if o.timeFormatVariety && g.chance("idp.tf", 35) {
@@ -216,6 +216,9 @@ func (g G) drawSP(i int, o worldOpts, hardURL bool) SPCfg {
 	if g.chance(fmt.Sprintf("sp%d.enc", i), 30) {
 		// a second KeyDescriptor for encryption (another key pair), before or after the signing one
 		c.EncKey, c.EncFirst = KeyEnc, g.chance(fmt.Sprintf("sp%d.encfirst", i), 50)
+		if g.chance(fmt.Sprintf("sp%d.encsame", i), 40) {
+			c.EncKey = c.Key // one key pair published twice: once for signing, once for encryption
+		}
 	}
 	c.MDPrefix = g.pick(fmt.Sprintf("sp%d.mdp", i), "", "default", "exotic")
 	if o.signReqVariety {
@@ -225,7 +228,7 @@ func (g G) drawSP(i int, o worldOpts, hardURL bool) SPCfg {
 		n := g.rng(fmt.Sprintf("sp%d.nacs", i), 1, 4)
 		for k := 0; k < n; k++ {
 			b := g.pick(fmt.Sprintf("sp%d.acs%d.b", i, k), BindPost, BindRedirect, BindPost, BindRedirect, BindArtifact, BindPAOS, "urn:example:binding:unknown",
-				BindPost, BindRedirect, BindSimpleSign, BindSOAP, "urn:oasis:names:tc:SAML:2.0:bindings:URI", "urn:oasis:names:tc:SAML:2.0:bindings:http-post", BindPost+" ", "urn:oasis:names:tc:SAML:1.0:profiles:browser-post", "")
+				BindPost, BindRedirect, BindSimpleSign, BindSOAP, "urn:oasis:names:tc:SAML:2.0:bindings:URI", "urn:oasis:names:tc:SAML:2.0:bindings:http-post", BindPost+" ", "urn:oasis:names:tc:SAML:1.0:profiles:browser-post", "", "urn:example:binding?v=1&x=<y>")
 			a := ACSCfg{Binding: b, Index: g.pick(fmt.Sprintf("sp%d.acs%d.i", i, k), "0", "1", "2", "7", "65535"), URL: fmt.Sprintf("%s/acs%d%s", base, k, q)}
 			a.IsDefault = g.pick(fmt.Sprintf("sp%d.acs%d.d", i, k), "", "", "true", "false", "1", "0")
 			c.ACS = append(c.ACS, a)
@@ -246,7 +249,7 @@ func (g G) drawSP(i int, o worldOpts, hardURL bool) SPCfg {
 	if o.sloVariety {
 		n := g.intn(fmt.Sprintf("sp%d.nslo", i), 4)
 		for k := 0; k < n; k++ {
-			c.SLO = append(c.SLO, SLOCfg{Binding: g.pick(fmt.Sprintf("sp%d.slo%d.b", i, k), BindPost, BindRedirect), URL: fmt.Sprintf("%s/slo%d%s", base, k, q)})
+			c.SLO = append(c.SLO, SLOCfg{Binding: g.pick(fmt.Sprintf("sp%d.slo%d.b", i, k), BindPost, BindRedirect, BindPost, BindRedirect, BindSOAP), URL: fmt.Sprintf("%s/slo%d%s", base, k, q)})
 		}
 		if n >= 2 && g.chance(fmt.Sprintf("sp%d.slo0empty", i), 12) {
 			c.SLO[0].URL = "" // the first registered entry carries no location (Location=""): there is nowhere to post to
@@ -316,6 +319,10 @@ func (g G) drawUser(i int, o worldOpts, hard bool) UserCfg {
 				Format:   g.pick(fmt.Sprintf("%sc%d.fmt", lab, k), "", "urn:oasis:names:tc:SAML:2.0:attrname-format:basic", "urn:oasis:names:tc:SAML:2.0:attrname-format:uri")}
 			nv := g.intn(fmt.Sprintf("%sc%d.nv", lab, k), 4)
 			for v := 0; v < nv; v++ {
+				if g.chance(fmt.Sprintf("%sc%d.v%d.empty", lab, k, v), 6) {
+					ca.Values = append(ca.Values, "") // an empty-but-present value
+					continue
+				}
 				ca.Values = append(ca.Values, g.text(fmt.Sprintf("%sc%d.v%d", lab, k, v), fmt.Sprintf("val%d-%s", v, mk), hard))
 			}
 			u.Custom = append(u.Custom, ca)
@@ -393,6 +400,9 @@ func (g G) drawStyle(label string) Style {
 		s.B64Lines = g.rng(label+".b64LinesK", 1, 4)
 	}
 	s.BodyAndURL = g.chance(label+".bodyAndURL", 15)
+	if g.chance(label+".trailer", 25) {
+		s.Trailer = g.rng(label+".trailerK", 1, 3)
+	}
 	if g.chance(label+".ct", 30) {
 		s.CT = g.rng(label+".ctK", 1, 3)
 	}
@@ -451,7 +461,7 @@ func (g G) drawFault(label string, pct int) string {
 	if !g.chance(label+".on", pct) {
 		return ""
 	}
-	return g.pick(label+".kind", "err", "err", "err", "nil_record", "key_without_cert", "cert_without_key", "empty_cert", "partial_err", "err_canceled", "err_notfound", "err_deadline", "err_eof")
+	return g.pick(label+".kind", "err", "err", "err", "nil_record", "key_without_cert", "cert_without_key", "empty_cert", "partial_err", "err_canceled", "err_notfound", "err_deadline", "err_eof", "err_text")
 }
 
 // drawFaultSigning: like drawFault, plus key records that look complete and only fail when the signature is made ("signing
@@ -493,7 +503,7 @@ func (g G) planC01() *Plan {
 	p := &Plan{Format: 1, Property: "C01", Mode: "serial", Family: "callback-histories"}
 	p.World = g.drawWorld(o)
 	if g.chance("algbad", 6) {
-		p.World.IDP.SigAlg = g.pick("algbadv", "", "http://www.w3.org/2000/09/xmldsig#dsa-sha1", "urn:example:unusable")
+		p.World.IDP.SigAlg = g.pick("algbadv", "", "http://www.w3.org/2000/09/xmldsig#dsa-sha1", "urn:example:unusable", "rsa-sha256", "http://www.w3.org/2001/04/xmldsig-more#ecdsa-sha256", AlgRSASHA512)
 	}
 	// some sessions exist before the run (records the SSO endpoint did not persist itself)
 	npre := g.intn("npre", 3)
